@@ -313,11 +313,16 @@ Inv_Inj ==
 RECURSIVE JoinStr(_, _, _)
 JoinStr(s, i, acc) == IF i > Len(s) THEN acc ELSE JoinStr(s, i + 1, acc \o s[i])
 
+\* cases that share the decoration of their base refer to the AST of the base case (astof)
 Vector(d) ==
   LET base == Bases[d.b]
-      toks == ToksOf(d) IN
-  [id |-> base.B.name \o "/" \o d.kind \o "/" \o ToString(d.i) \o "/" \o ToString(d.j), name |-> base.B.name, kind |-> d.kind,
-   text |-> JoinStr(Render(toks, LayoutOf(d, toks)), 1, ""), ntok |-> Len(toks), ast |-> AstOf(d), deps |-> base.deps]
+      toks == ToksOf(d)
+      id == base.B.name \o "/" \o d.kind \o "/" \o ToString(d.i) \o "/" \o ToString(d.j)
+      text == JoinStr(Render(toks, LayoutOf(d, toks)), 1, "") IN
+  IF OwnDeco(d) \/ (d.kind = "base" /\ d.i = 1)
+  THEN [id |-> id, name |-> base.B.name, kind |-> d.kind, text |-> text, ntok |-> Len(toks), ast |-> AstOf(d), deps |-> base.deps]
+  ELSE [id |-> id, name |-> base.B.name, kind |-> d.kind, text |-> text, ntok |-> Len(toks),
+        astof |-> base.B.name \o "/base/1/0", deps |-> base.deps]
 
 Emit == IF TLCGet("stats").distinct > 0 /\ "VECTORS" \in DOMAIN IOEnv /\ IOEnv.VECTORS # ""
         THEN LET s == SetToSeq(AllDescs)
